@@ -82,6 +82,8 @@ Shape(i, a, b) ==
     [] i = 17 -> <<[t |-> "range", v |-> 3, d |-> 1, c |-> <<>>], a>>
     [] i = 18 -> <<Node("ntuple", <<a, b>>), I(0)>>
     [] i = 19 -> <<Node("list", <<Node("ntuple", <<a, b>>), [t |-> "range", v |-> 2, d |-> 1, c |-> <<>>]>>), I(0)>>
+    [] i = 20 -> <<[t |-> "ipnet", v |-> 30, d |-> 1, c |-> <<>>], a>>
+    [] i = 21 -> <<Node("tuple", <<[t |-> "ipnet", v |-> 30, d |-> 1, c |-> <<>>], a>>), b>>
     [] OTHER -> <<a, b>>
 \* sets of unhashable things do not exist, and a set holding equal members collapses: keep them distinct and hashable
 ValidShape(i, a, b) == (i \in {4, 5}) => ~EqT(a, b, FALSE)
@@ -106,7 +108,7 @@ DeepArg(j, tol) ==
             ELSE [j EXCEPT !.c = [i \in 1..Len(j.c) |-> [j.c[i] EXCEPT !.c = <<DeepArg(j.c[i].c[1], tol)>>]]]
   ELSE IF j.t \in {"list", "tuple", "set", "fset"}  \* isiterable: type(j)(deep_round(*j)[0])
        THEN [j EXCEPT !.c = [i \in 1..Len(j.c) |-> DeepArg(j.c[i], tol)]]
-  ELSE IF j.t \in {"range", "ntuple"}                \* iterable, but type(j)(tuple of elements) raises
+  ELSE IF j.t \in {"range", "ntuple", "ipnet"}       \* iterable, but type(j)(tuple of elements) raises
        THEN IF "deep_rebuild_raises" \in Deviations THEN FAIL ELSE j      \* (kept as it is)
   ELSE j
 
